@@ -198,7 +198,7 @@ class Scheduler:
         choices = ["polygon", "polygon", "polygon", "square", "triangle", "regular", "primpoly",
                    "jordan", "singleton"]
         if cfg["curved"]:
-            choices += ["circle", "circle", "quad", "cubic", "spandrel"]
+            choices += ["circle", "circle", "quad", "cubic", "spandrel", "dome", "smallcircle", "gentle"]
         if cfg["composite_builds"]:
             choices += ["connected", "disjoint", "inverted"]
         what = r.choice(choices)
@@ -220,6 +220,25 @@ class Scheduler:
         if what == "primpoly":
             verts = gen.polygon(r, numeric, den=self._den())
             return {"op": "build", "what": "polygon", "verts": [_jp(v) for v in verts], "dst": dst}
+        if what == "dome":
+            chain = gen.dome(r, (float(center[0]), float(center[1])))
+            return {"op": "build", "what": "value", "value": model.jsonable(("S", chain)), "dst": dst}
+        if what == "smallcircle":
+            # gently curved arcs: the squared error of replacing one by its chord lies between the
+            # library's 1e-9 and a careless 1e-6
+            return {"op": "build", "what": "circle", "radius": J(r.choice([0.1, 0.15, 0.25])),
+                    "center": _jp((float(center[0]), float(center[1]))), "ndiv": r.choice([12, 16]), "dst": dst}
+        if what == "gentle":
+            verts = gen.polygon(r, "frac", 3, 5)
+            n = len(verts)
+            chain = []
+            for i in range(n):
+                a, b = verts[i], verts[(i + 1) % n]
+                ax, ay, bx, by = float(a[0]), float(a[1]), float(b[0]), float(b[1])
+                t = r.choice([-1, 1]) * r.uniform(0.004, 0.012)
+                m = ((ax + bx) / 2 + t * (by - ay), (ay + by) / 2 - t * (bx - ax))
+                chain.append(((ax, ay), m, (bx, by)))
+            return {"op": "build", "what": "value", "value": model.jsonable(("S", tuple(chain))), "dst": dst}
         if what == "spandrel":
             chain = gen.spandrel(r, (float(center[0]), float(center[1])))
             if kernel.chain_area(chain) < 0:
@@ -403,6 +422,19 @@ class Scheduler:
                 step["pform"] = "point2d"  # a caller-owned Point2D that must come back unchanged
             if kind == "contains_point":
                 step["boundary"] = r.random() < 0.5
+            if not isinstance(v, str) and not kernel.is_polygonal(v) and r.random() < 0.3:
+                # two points on the same curved segment, far apart in parameter: compared with
+                # deep-copy twins only (the answer near a curved boundary depends on the chords)
+                csegs = [seg for ch in kernel.chains_of(v) for seg in ch if len(seg) > 2]
+                sg = r.choice(csegs)
+                fs = tuple((float(x), float(y)) for x, y in sg)
+                t1, t2 = r.choice([(0.9, 0.1), (0.1, 0.9), (0.85, 0.2), (0.3, 0.7)])
+                first = dict(step, p=_jp(kernel.seg_eval(fs, t1)), t1=True, t2=False, repeat=False, noisy_point=True)
+                second = dict(step, p=_jp(kernel.seg_eval(fs, t2)), t1=True, t2=False, repeat=False, noisy_point=True)
+                if kind == "contains_point":
+                    first["boundary"] = second["boundary"] = r.random() < 0.5
+                self.pending.insert(0, second)
+                return first
             if not isinstance(v, str) and r.random() < 0.15:
                 # a point a few 1e-6 away from an edge: just outside the library's nominal
                 # point-on-boundary tolerance (1e-6), where a drifting tolerance shows first
@@ -639,6 +671,25 @@ class Scheduler:
                 pnodes.append(J(nd))
         return {"op": "split", "a": a, "k": k, "idx": pidx, "nodes": pnodes}
 
+    def congruent_macro(self, world):
+        """x and a translated deep copy of x united: components with exactly equal area and
+        length, whose order nothing but an arbitrary tie-break decides."""
+        r = self.rng
+        names = [n for n in self._shapes(world, kinds=("S",)) if kernel.is_polygonal(world.slots[n].V)]
+        if not names or len(world.slots) > HEAD_ROOM:
+            return None
+        a = r.choice(names)
+        x0, y0, x1, y1 = kernel.bbox(kernel.chains_of(world.slots[a].V))
+        s1, s2 = self.next_slot, self.next_slot + 1
+        self.next_slot += 2
+        shift = int(math.ceil(x1 - x0)) + r.randint(1, 3)
+        self.cfg["congruent"] = True
+        return [{"op": "deepcopy", "a": a, "dst": s1, "t1": False, "t2": False, "repeat": False},
+                {"op": "move", "a": s1, "v": _jp((shift, 0)), "form": "args"},
+                self._oracle_flags({"op": "or", "a": a, "b": s1, "dst": s2}),
+                self._oracle_flags({"op": "jlen", "a": s2, "k": 0}),
+                self._oracle_flags({"op": "inv", "a": s2, "dst": None})]
+
     def global_probe(self, world):
         """Ask; run an unrelated curved intersection on two fresh circles; ask the same again.
         Process-global state written by the unrelated operation (a class attribute used as
@@ -824,6 +875,11 @@ class Scheduler:
                     return q
             if kind == "transform" and r.random() < p.get("query_after", 0.3):
                 self.pending.append({"macro": "query_after", "of": step})
+            if kind == "operator" and r.random() < 0.06:
+                steps = self.congruent_macro(world)
+                if steps:
+                    self.pending = steps[1:] + self.pending
+                    return steps[0]
             if kind in ("operator", "bquery") and "b" in step and step["op"] in ops.BINARY_OPERATORS + ("in_shape", "eq", "ne") \
                     and r.random() < p.get("pair_again", 0.35):
                 # the same pair again, in another order / under another operator: this is
